@@ -217,7 +217,7 @@ func CorpusPacemakerPush(o *drv.Out) {
 		r.Deliver(e)
 	}
 	s.Take(func(*bftsim.Envelope) bool { return true })
-	t := &timed{r: r, s: s, o: o}
+	t := &timed{r: r, s: s, o: o, planA: -1}
 	for k := 0; k < 6; k++ { // an ordinary failed round (nothing delivered)
 		for _, i := range hon {
 			if b := s.Nodes[i].B; !(b.Phase == bft.Election && b.Round > 0) {
@@ -239,3 +239,110 @@ func CorpusPacemakerPush(o *drv.Out) {
 }
 
 func samePub(a, b []byte) bool { return bytes.Equal(a, b) }
+
+// CorpusStaleBlockHash: two different locks alive when synchrony returns and the lower-locked replica is needed.
+// (1) A = replica 1 alone locks on X in round 0 (the PRECOMMIT reaches only A), the round fails. (2) With A cut off, the
+// others propose a fresh Y in round 1 and lock on it (their PRECOMMIT_VOTEs are lost: no commit). (3) Validator 0 crashes;
+// A, 2, 3 are all needed. The first round led by a live replica must commit Y: A's SafeNode takes the LIVENESS branch and
+// A has to sign for Y. `variantALeads`: that round is led by A itself (it adopts the higher lock and must propose Y).
+// A replica that keeps answering the hash of its old lock after a round change never contributes again and the height
+// never commits (seeded change pending-C15).
+func CorpusStaleBlockHash(o *drv.Out, variantALeads bool) {
+	const A = 1
+	cfg := corpusCfg(1)
+	probe := bftsim.New(cfg)
+	for ; ; cfg.Salt++ {
+		probe.SetSalt(cfg.Salt)
+		l1, l2 := probe.FallbackLeader(10, 1), probe.FallbackLeader(10, 2)
+		if l1 != A && ((variantALeads && l2 == A) || (!variantALeads && (l2 == 2 || l2 == 3))) {
+			break
+		}
+	}
+	name := "corpus/stale-block-hash-after-unlock"
+	if variantALeads {
+		name += "/lower-locked-replica-leads"
+	}
+	r := c01.NewRun(o, name, cfg)
+	s := r.Sim()
+	all := others(s)
+	step := func(who []int) {
+		for _, i := range who {
+			if !c01.Committed(s, i) {
+				r.Phase(i)
+			}
+		}
+	}
+	deliver := func(f func(e *bftsim.Envelope) bool) {
+		for _, e := range s.Take(func(e *bftsim.Envelope) bool { return e.Kind != "ELECTION" && (f == nil || f(e)) }) {
+			r.Deliver(e)
+		}
+		s.DropAll() // candidate announcements are never delivered: every round is led by the fallback leader
+	}
+	toElection := func(who []int) {
+		for _, i := range who {
+			for k := 0; s.Nodes[i].B.Phase != bft.Election && k < 12; k++ {
+				r.Phase(i)
+			}
+		}
+		s.DropAll()
+	}
+	// (1) round 0: X certified, the PRECOMMIT reaches A only
+	step(all)
+	deliver(nil) // ELECTION
+	step(all)
+	deliver(nil) // ELECTION_VOTE
+	step(all)
+	deliver(nil) // PROPOSE
+	step(all)
+	deliver(nil) // PROPOSE_VOTE
+	step(all)    // PRECOMMIT
+	deliver(func(e *bftsim.Envelope) bool { return e.To == A })
+	step(all) // PRECOMMIT_VOTE: A locks, the others interrupt
+	s.DropAll()
+	toElection(all)
+	// (2) round 1 without A: Y certified and locked by 0, 2, 3; their PRECOMMIT_VOTEs are lost
+	rest := others(s, A)
+	notA := func(e *bftsim.Envelope) bool { return e.From != A && e.To != A }
+	step(all)
+	deliver(notA)
+	step(all)
+	deliver(notA)
+	step(all)
+	deliver(notA)
+	step(all) // PROPOSE_VOTE: A has no proposal / refuses
+	deliver(notA)
+	step(rest) // PRECOMMIT
+	deliver(notA)
+	step(rest) // PRECOMMIT_VOTE: 0, 2, 3 lock on Y
+	s.DropAll()
+	toElection(all)
+	lockA, lock2 := s.State(A), s.State(2)
+	// (3) validator 0 is gone; synchronous rounds with A, 2, 3
+	live := []int{A, 2, 3}
+	rounds, n := 0, 0
+	firstLive := -1
+	for ; n == 0 && rounds < 5; rounds++ {
+		round := s.Nodes[2].B.Round
+		if l := s.FallbackLeader(10, round); l != 0 && firstLive < 0 {
+			firstLive = rounds
+		}
+		for k := 0; k < 9 && honestCommits(s) == 0; k++ {
+			moved := false
+			for _, i := range live {
+				if b := s.Nodes[i].B; !c01.Committed(s, i) && !(b.Phase == bft.Election && b.Round > round) {
+					r.Phase(i)
+					moved = true
+				}
+			}
+			deliver(nil)
+			if !moved {
+				break
+			}
+		}
+		n = honestCommits(s)
+	}
+	ok := n > 0 && rounds-1 == firstLive
+	verdict(o, r, "C15:stale-block-hash-after-unlock", "two locks alive, the lower-locked replica needed for +2/3", ok,
+		fmt.Sprintf("after stage 2: A %s | replica 2 %s; first round with a live leader: +%d, committed after +%d rounds: %s", lockA, lock2, firstLive, rounds-1, c01.CommitsStr(s)))
+	r.End()
+}
